@@ -271,7 +271,45 @@ def check_instance(ctx, tag, cls, kwargs, case):
                 with ctx.guard(("C12", cname, "property-exception-after-reparse", p), case):
                     ctx.check(same(v, getter(back)), ("C12", cname, "argument-lost-on-reparse", p),
                               f"{cname}({p}={v!r}): after re-parse {p} = {getter(back)!r}", case)
+            # the same infoset written with other namespace prefixes (valid XML; prefixes are not part of the infoset)
+            with ctx.guard(("C12", cname, "alias-prefix-exception"), case):
+                xml2 = alias_prefixes(root)
+                back2 = Element.from_tag(xml2)
+                ctx.check(type(back2) is type(e), ("C12", cname, "reparse-class/alias-prefix"),
+                          f"{xml2[:160]} parsed as {type(back2).__name__}, built as {type(e).__name__}", case)
+                ctx.check(back2.tag == e.tag, ("C12", cname, "tag/alias-prefix"), f"{xml2[:160]}: tag reads {back2.tag!r}, expected {e.tag!r}", case)
+                for p, (getter, v) in observed.items():
+                    ctx.check(same(v, getter(back2)), ("C12", cname, "argument-lost-on-reparse/alias-prefix", p),
+                              f"{cname}({p}={v!r}): parsed from {xml2[:200]} {p} = {getter(back2)!r}", case)
+                kids = [k for k in back2.children]
+                ctx.check([type(k) for k in kids] == [type(k) for k in back.children], ("C12", cname, "children-class/alias-prefix"),
+                          f"children classes {[type(k).__name__ for k in kids]} vs {[type(k).__name__ for k in back.children]}", case)
     return e
+
+
+def alias_prefixes(root):
+    """serialise the lxml element with every namespace bound to a non-canonical prefix"""
+    from lxml import etree as _et
+
+    alias = {"z" + p: u for p, u in odfread.ALL_NS.items()}
+
+    def copy(el):
+        if not isinstance(el.tag, str):
+            return None
+        new = _et.Element(el.tag, nsmap=alias)
+        for k, v in el.attrib.items():
+            new.set(k, v)
+        new.text = el.text
+        for ch in el:
+            c2 = copy(ch)
+            if c2 is not None:
+                c2.tail = ch.tail
+                new.append(c2)
+        return new
+
+    new = copy(root)
+    _et.cleanup_namespaces(new)
+    return _et.tostring(new, encoding="unicode")
 
 
 def run_case(case, ctx):
@@ -303,6 +341,12 @@ def replay(case, ctx):
 
 
 # ------------------------------------------------------------------ dispatch
+def odfread_q(name):
+    from lib import odfread
+
+    return odfread.q(name)
+
+
 def check_dispatch(ctx):
     from odfdo import Document, Element
     from odfdo.content import Content
@@ -428,6 +472,38 @@ def check_dispatch(ctx):
         expect(mark.clone, ReferenceMarkStart, "clone/set_reference_mark_end", "text:reference-mark-start")
         expect(para.get_element("descendant::text:reference-mark-start"), ReferenceMarkStart, "get_element/set_reference_mark_end", "text:reference-mark-start")
         expect(para.clone.get_element("descendant::text:reference-mark-start"), ReferenceMarkStart, "clone-then-get_element/set_reference_mark_end", "text:reference-mark-start")
+    # comments and processing instructions between the elements (valid XML, ignored by consumers) hide nothing
+    with ctx.guard(("C12", "dispatch", "comment-exception"), case):
+        from lxml import etree as _et
+
+        xml2 = doc.content.serialize()
+        root = _et.fromstring(xml2)
+        n_el = 0
+        for el in list(root.iter()):
+            if isinstance(el.tag, str) and el.get(odfread_q("text:id")) and el.getparent() is not None:
+                el.addprevious(_et.Comment("verif"))
+                el.addnext(_et.ProcessingInstruction("verif-pi", "x"))
+                n_el += 1
+        doc3 = Document("text")
+        doc3.set_part("content.xml", _et.tostring(root.getroottree(), xml_declaration=True, encoding="UTF-8"))
+        b = doc3.body
+        for qn, cls, ident in holders:
+            q = f'descendant::{qn}[@text:id="{ident}"]'
+            el = b.get_element(q)
+            ctx.check(el is not None, ("C12", "dispatch", "lookup"), f"{q} not found next to comments", case)
+            if el is None:
+                continue
+            expect(el, cls, "get_element/with-comments", qn)
+            kids = [k for k in el.parent.children if k.get_attribute_string("text:id") == ident]
+            ctx.check(len(kids) == 1, ("C12", "dispatch", "lookup"), f"children of the parent of {qn} lists it {len(kids)} times next to comments", case)
+            if kids:
+                expect(kids[0], cls, "children/with-comments", qn)
+            # every child handed out is a usable element wrapper (comments are not elements)
+            tags = [k.tag for k in el.parent.children]
+            ctx.check(all(isinstance(t, str) and ":" in t for t in tags), ("C12", "dispatch", "children/with-comments"),
+                      f"children of the parent of {qn}: tags {tags!r}", case)
+            expect(el.clone, cls, "clone/with-comments", qn)
+        ctx.ev(n_el)
     ctx.nontrivial(("dispatch", len(items)))
 
 
